@@ -84,7 +84,7 @@ pub fn script(args: &[String]) -> i32 {
                 //  does not rely on results cached before the history existed, so the probe must not see the tables filled by
                 //  the probes of earlier commands)
                 crate::timer::verif::set_poll_limit(None);
-                let mut sr = catch_unwind(AssertUnwindSafe(|| {
+                let mut sr0 = catch_unwind(AssertUnwindSafe(|| {
                     let mut g = Flounder::new();
                     for t in &texts {
                         g.verif_handle_command(t);
@@ -92,7 +92,7 @@ pub fn script(args: &[String]) -> i32 {
                     g
                 }));
                 let mut evs = vec![];
-                let sr = match sr.as_mut() {
+                let sr = match sr0.as_mut() {
                     Ok(g) => {
                         crate::search::verif::set_sink(true);
                         let r = catch_unwind(AssertUnwindSafe(|| g.verif_searcher().find_best_move(&b, 1, None)));
@@ -134,6 +134,123 @@ pub fn script(args: &[String]) -> i32 {
                         }
                     }
                     ev["seen"] = json!(seen);
+                    // ... and one ply deeper: a depth-2 search on the same second engine; every node entered at ply 2 that returned
+                    // through the repetition rule, and a sample of those that did not, with the two moves that lead to it
+                    if let Ok(g) = sr0.as_mut() {
+                        crate::search::verif::set_sink(true);
+                        let r2 = catch_unwind(AssertUnwindSafe(|| g.verif_searcher().find_best_move(&b, 2, None)));
+                        let evs2 = crate::search::verif::set_sink(false);
+                        if r2.is_ok() {
+                            let mut stack: Vec<(u8, crate::board::Board, bool)> = vec![];
+                            let mut seen2 = vec![];
+                            let mut others = 0usize;
+                            let mut in_last = false;
+                            for (_, e) in &evs2 {
+                                match e {
+                                    Ev::Neg { board, ply, depth, .. } => {
+                                        if *ply == 0 {
+                                            in_last = *depth == 2;       // only the depth-2 iteration
+                                        }
+                                        if let Some(top) = stack.last_mut() {
+                                            top.2 = true;
+                                        }
+                                        stack.push((*ply, *board, false));
+                                    }
+                                    Ev::Quiet { .. } => {
+                                        if let Some(top) = stack.last_mut() {
+                                            top.2 = true;
+                                        }
+                                    }
+                                    Ev::NegRet { kind, score, .. } => {
+                                        if let Some((ply, board, below)) = stack.pop() {
+                                            if ply == 2 && in_last && stack.len() == 2 {
+                                                let isrep = *kind == "rep";
+                                                if isrep || others < 12 {
+                                                    let parent = stack[1].1;
+                                                    let m1 = mg.generate_moves(&b).into_iter().find(|m| proj::project(&b.clone_with_move(m)) == proj::project(&parent));
+                                                    let m2 = mg.generate_moves(&parent).into_iter().find(|m| proj::project(&parent.clone_with_move(m)) == proj::project(&board));
+                                                    if let (Some(m1), Some(m2)) = (m1, m2) {
+                                                        if !isrep {
+                                                            others += 1;
+                                                        }
+                                                        seen2.push(json!([proj::move_text(&m1), proj::move_text(&m2), isrep, (*score).clamp(-40000, 40000), below]));
+                                                    }
+                                                }
+                                            }
+                                        }
+                                    }
+                                    _ => {}
+                                }
+                            }
+                            ev["seen2"] = json!(seen2);
+                            // ... and a depth-5 search (node budget 150 000): every node at ANY ply whose position is one of the positions
+                            // of the game (the only candidates for a repetition) or that returned through the repetition rule
+                            if texts.last().map(|t| t.contains(" moves ")).unwrap_or(false) {
+                                let mut game: std::collections::HashSet<String> = std::collections::HashSet::new();
+                                {
+                                    // the positions of the game as the engine's own handler replays them (a join key only; TLC recomputes the game)
+                                    let mut h = Flounder::new();
+                                    let last = texts.last().unwrap().clone();
+                                    let (head, moves) = last.split_at(last.find(" moves ").unwrap());
+                                    let mut acc = head.to_string();
+                                    let _ = catch_unwind(AssertUnwindSafe(|| h.verif_handle_command(&acc)));
+                                    game.insert(proj::project(h.verif_board()));
+                                    acc.push_str(" moves");
+                                    for m in moves.split_whitespace().skip(1) {
+                                        acc.push(' ');
+                                        acc.push_str(m);
+                                        if catch_unwind(AssertUnwindSafe(|| h.verif_handle_command(&acc))).is_err() {
+                                            break;
+                                        }
+                                        game.insert(proj::project(h.verif_board()));
+                                    }
+                                }
+                                g.verif_searcher().verif_set_node_limit(Some(150_000));
+                                crate::search::verif::set_sink(true);
+                                let r5 = catch_unwind(AssertUnwindSafe(|| g.verif_searcher().find_best_move(&b, 5, None)));
+                                let evs5 = crate::search::verif::set_sink(false);
+                                crate::timer::verif::set_node_limit(None);
+                                if r5.is_ok() {
+                                    let mut stack: Vec<(u8, crate::board::Board, bool)> = vec![];
+                                    let mut seen_n = vec![];
+                                    let mut dedup: std::collections::HashSet<(String, bool, i32, bool)> = std::collections::HashSet::new();
+                                    for (_, e) in &evs5 {
+                                        match e {
+                                            Ev::Neg { board, ply, .. } => {
+                                                if let Some(top) = stack.last_mut() {
+                                                    top.2 = true;
+                                                }
+                                                stack.push((*ply, *board, false));
+                                            }
+                                            Ev::Quiet { .. } => {
+                                                if let Some(top) = stack.last_mut() {
+                                                    top.2 = true;
+                                                }
+                                            }
+                                            Ev::NegRet { kind, score, .. } => {
+                                                if let Some((ply, board, below)) = stack.pop() {
+                                                    let isrep = *kind == "rep";
+                                                    // (an aborted node proves nothing: the deadline, not the rule, ended it)
+                                                    if ply >= 1 && *kind != "abort" && (isrep || game.contains(&proj::project(&board))) && seen_n.len() < 150 {
+                                                        let sc = (*score).clamp(-40000, 40000);
+                                                        if dedup.insert((proj::project(&board), isrep, sc, below)) {
+                                                            seen_n.push(json!([proj::project_struct(&board), ply, isrep, sc, below]));
+                                                        }
+                                                    }
+                                                }
+                                            }
+                                            _ => {}
+                                        }
+                                    }
+                                    ev["seenN"] = json!(seen_n);
+                                } else {
+                                    ev["crashed"] = json!(true);
+                                }
+                            }
+                        } else {
+                            ev["crashed"] = json!(true);
+                        }
+                    }
                 }
             }
         }
